@@ -111,7 +111,7 @@ def resolve(m, op):
         rows = _rows(op["rows"], N)
         key = op["key"]
         if key in ("chan_param", "chan_state"):
-            name = _pick(sorted(chans), op["pick"])
+            name = op["mech"] if op.get("mech") in chans else _pick(sorted(chans), op["pick"])
             if name is None:
                 return None
             table = R2.CHANNELS[chans[name][0]]
